@@ -1367,12 +1367,10 @@ impl DhtCoreEngine {
             }
         }
 
-        // The local node is never admitted; a peer that is already admitted is refreshed:
-        // it gives its old slots back and is admitted again under its (possibly new) address.
+        // The local node is never admitted
         if node.id == self.node_id {
             return Ok(());
         }
-        self.release_admitted_slots(&node.id).await;
 
         // 2. Security Check: IP Diversity (both IPv4 and IPv6)
         let mut ip_slots: Option<IpAddr> = None;
@@ -1442,10 +1440,16 @@ impl DhtCoreEngine {
             self.release_slots(ip_slots, region_slot).await;
             return Err(e);
         }
-        self.admitted_slots
+        // A peer that was already admitted has been refreshed in place: the slots of its
+        // previous admission are given back
+        let previous = self
+            .admitted_slots
             .write()
             .await
             .insert(node_id, (ip_slots, region_slot));
+        if let Some((old_ip, old_region)) = previous {
+            self.release_slots(old_ip, old_region).await;
+        }
 
         // 5. Update Metrics
         // (Placeholder: Add metric for new node joining if available)
